@@ -207,7 +207,8 @@ var NameKindNames = []string{"none", "none-angle", "atoms", "quoted", "quoted-sp
 // \t, \u00a0 ... which an RFC 5322 reader takes for quoted-pairs), together with quotes, backslashes,
 // commas and parentheses.
 var HardNames = []string{"Jean\tLuc", "Jean\u00a0Luc", "zw\u200cnj Name", "zw\u200dj Name", "soft\u00adhyphen", "lrm\u200e Name", "Name\u200frlm",
-	"line\u2028sep", "Tab\there, \"Q\" (x) \\ y", "N\u00a0B, \"q\" (p)\\", "a\u200db\u00adc\u200ed", "(paren\u00a0) \\n"}
+	"line\u2028sep", "Tab\there, \"Q\" (x) \\ y", "N\u00a0B, \"q\" (p)\\", "a\u200db\u00adc\u200ed", "(paren\u00a0) \\n",
+	"\u00e9\\x"}
 
 var asciiNames = []string{"John Doe", "Alice", "Bob B. Builder", "X Y Z", "Support Team"}
 var specialNames = []string{"Doe, John", "Sales <EMEA>", "a@b", "semi;colon: x", "back\\slash", "say \"hi\"", "(paren)", "dot. dot"}
@@ -256,6 +257,22 @@ func RenderAddress(r *rand.Rand, mb Mailbox) (string, string, int) {
 		return mime.QEncoding.Encode("utf-8", n) + " <" + spec + ">", n, k
 	}
 }
+
+// QBackslashName: the display names net/mail.Address.String (go1.23) writes as a Q encoded-word with a raw
+// backslash inside, which ParseAddress rejects: the name needs encoding (a rune outside SP..~ / TAB), holds a
+// backslash, and none of the characters that make String choose the B encoding.
+func QBackslashName(n string) bool {
+	needs := false
+	for i := 0; i < len(n); i++ {
+		if b := n[i]; !(b >= 32 && b <= 126 || b == 9) {
+			needs = true
+		}
+	}
+	return needs && strings.Contains(n, "\\") && !strings.ContainsAny(n, "\"#$%&'(),.:;<>@[]^`{|}~")
+}
+
+// QBackslashNames: members of that class for the generators.
+var QBackslashNames = []string{"\u00e9\\x", "J\u00fcrgen \\ M", "\\\\\u00fc", "tab\t\u00e4 \\n"}
 
 // QuoteName writes a display name as an RFC 5322 quoted-string (only '"' and '\\' are escaped).
 func QuoteName(n string) string {
@@ -653,11 +670,13 @@ func parsePathLine(line string, u8 bool, anyDomain bool) (PathLine, error) {
 
 // Tables are the finite parts of the three oracles a case needs.
 type Tables struct {
-	parse  map[string]*mail.Address // nil = parse error
-	str    map[[2]string]string
-	enc    map[string]string
-	HAddr  []string // violated hypotheses, human readable
-	NAddrs int
+	parse    map[string]*mail.Address // nil = parse error
+	str      map[[2]string]string
+	enc      map[string]string
+	HAddr    []string // violated hypotheses on the shape of Address / String() / Name, human readable
+	HRound   []string // Parse(String a) != a outside the class QBackslashName
+	HRoundQB []string // Parse(String a) != a for a display name of the class QBackslashName (known net/mail defect)
+	NAddrs   int
 }
 
 func NewTables() *Tables {
@@ -724,8 +743,10 @@ func (t *Tables) Close() {
 					t.HAddr = append(t.HAddr, fmt.Sprintf("H-name: ParseAddress(%q).Name = %q, the RFC 5322 quoted-string reader reads %q", k, a.Name, n))
 				}
 			}
-			if b == nil || b.Name != a.Name || b.Address != a.Address {
-				t.HAddr = append(t.HAddr, fmt.Sprintf("ParseAddress(String()) of %q/%q is not the identity: %q", a.Name, a.Address, s))
+			if (b == nil || b.Name != a.Name || b.Address != a.Address) && QBackslashName(a.Name) {
+				t.HRoundQB = append(t.HRoundQB, fmt.Sprintf("ParseAddress(String()) of %q/%q fails: %q", a.Name, a.Address, s))
+			} else if b == nil || b.Name != a.Name || b.Address != a.Address {
+				t.HRound = append(t.HRound, fmt.Sprintf("ParseAddress(String()) of %q/%q is not the identity: %q", a.Name, a.Address, s))
 			}
 		}
 		if !added {
